@@ -25,5 +25,6 @@ theorem Montgomery_ct_eq_ok26 : (sig_Montgomery_ct_eq I26).ok B26 = true := by d
 theorem Ristretto_compress_ok26 : (sig_Ristretto_compress I26).ok B26 = true := by decide +kernel
 theorem Field_pow22501_ok26 : (sig_Field_pow22501 I26).ok B26 = true := by decide +kernel
 theorem Field_sqrt_ratio_i_ok26 : (sig_Field_sqrt_ratio_i I26).ok B26 = true := by decide +kernel
+theorem Ristretto_elligator_ristretto_flavor_ok26 : (sig_Ristretto_elligator_ristretto_flavor I26).ok B26 = true := by decide +kernel
 
 end Dalek.Props.C11.Formulas
